@@ -99,6 +99,24 @@ def run(ctx):
           'each civil day is assigned the latest term that starts on or before it, day index = days since that term\'s day (term days start at index 0)',
           lambda x: '%s %d-%02d-%02d' % ((scen[x[0]][0],) + CAL.from_jdn(x[1])), fn_site(p, 'SolarDay::get_term_day'))
 
+    # the day a term starts on, as a caller obtains it (term -> Julian date -> civil day), is the day from which get_term_day counts index 0
+    def term_own_day(x):
+        si, key = x
+        cm = CalModel(I, scen[si][1], months)
+        tv = cm.term_sv(key[0], key[1])
+        d = t.m(t.m(tv, 'get_julian_day'), 'get_solar_day')
+        td = t.m(d, 'get_term_day')
+        st = t.m(td, 'get_solar_term')
+        return (cm.n_of(d), (py(t.m(st, 'get_year')), py(t.m(st, 'get_index')), py(t.m(td, 'get_day_index'))))
+
+    def term_own_day_orc(x):
+        si, key = x
+        v = scen[si][1][key]
+        return (v[0] + (1 if int(v[1] + 0.5) >= 86400 else 0), (key[0], key[1], 0))
+    table(ctx, 'PETE-SCENARIO', 'SolarTerm:own-day', [(si, k) for si in range(len(scen)) for k in sorted(scen[si][1]) if CAL.from_jdn(scen[si][1][k][0])[0] == Y], term_own_day, term_own_day_orc,
+          'the civil day of a term (its Julian date converted to a day, i.e. the instant rounded to the second) is the day that has this term with day index 0',
+          lambda x: '%s term (%d, %d)' % ((scen[x[0]][0],) + x[1]), fn_site(p, 'JulianDay::get_solar_day'))
+
     # instants: the term's own start second, one second either side, midnight and last second of term days, noon elsewhere
     # fractional seconds: the reported start of a term is its instant rounded to the second
     sec = dict((i, (i * 3607 + 1234) % 86000 + 100 + (0.4 if i % 2 else 0.6)) for i in range(24))
